@@ -75,7 +75,50 @@ class StnHist(Engine):
     assumptions = ("epsilon = 0; bounds are exact rationals",)
 
     def profiles(self, tier):
-        return ["mixed", "cycles", "copies", "cascade"]
+        return ["mixed", "cycles", "copies", "cascade", "longlist"]
+
+    def generate_longlist(self, seed, tier="quick"):
+        """Round 8 (scale): ONE event with a long list of outgoing constraints.  Entries are only ever prepended, so
+        repeated tightenings of x - y <= b for several y make the list of x 10-40 entries long; the list cells are
+        shared between a network and its copies.  After 1-2 copies the sides tighten different x - y bounds
+        alternately, re-insert loose bounds (look-ups that walk far down the list) and lower x (y - x <= w closing a
+        cycle of weight 0-2, so that everything hanging off x is propagated again)."""
+        r = stream(seed, "longlist")
+        nev = r.randint(4, 12)
+        events = [f"e{i}" for i in range(nev)]
+        x, others = events[0], events[1:]
+        nets = ["N0"]
+        cur = {"N0": {}}
+        ops = []
+
+        def tighten(n, y, by):
+            b = cur[n].get(y, r.randint(8, 30)) - by
+            cur[n][y] = b
+            ops.append({"op": "add", "n": n, "x": x, "y": y, "b": b})
+        for _ in range(r.randint(4, 16)):
+            tighten("N0", r.choice(others), r.randint(0, 2))
+        for i in range(r.randint(10, 40)):
+            n = r.choice(nets[-2:]) if r.random() < 0.7 else r.choice(nets)
+            q = r.random()
+            if (i == 0 or q < 0.06) and len(nets) < 3:
+                nid = f"N{len(nets)}"
+                ops.append({"op": "copy", "of": n, "id": nid})
+                nets.append(nid)
+                cur[nid] = dict(cur[n])
+            elif q < 0.55:
+                tighten(n, r.choice(others), r.randint(1, 2))
+            elif q < 0.75:
+                # a loose bound: subsumed, but the look-up walks the list as far as the entry for y
+                y = r.choice(others)
+                ops.append({"op": "add", "n": n, "x": x, "y": y, "b": cur[n].get(y, 30) + r.randint(0, 5)})
+                cur[n].setdefault(y, 30)
+            elif q < 0.9 and cur[n]:
+                y = r.choice(sorted(cur[n]))
+                ops.append({"op": "add", "n": n, "x": y, "y": x, "b": -cur[n][y] + r.choice([0, 0, 1, 2])})
+            else:
+                a, b_ = r.sample(others, 2) if len(others) >= 2 else (others[0], x)
+                ops.append({"op": "add", "n": n, "x": a, "y": b_, "b": r.randint(-3, 6)})
+        return {"engine": self.name, "events": events, "events_as": r.choice(["str", "int", "plan_node"]), "ops": ops}
 
     def generate_cascade(self, seed, tier="quick"):
         """Layered precedence network over 8-14 events inserted sink side first, so that each insertion near the
@@ -126,6 +169,8 @@ class StnHist(Engine):
     def generate(self, seed, profile, tier):
         if profile == "cascade":
             return self.generate_cascade(seed, tier)
+        if profile == "longlist":
+            return self.generate_longlist(seed, tier)
         r = stream(seed, "ops")
         nev = r.randint(2, 5)
         events = [f"e{i}" for i in range(nev)]
